@@ -307,11 +307,10 @@ def rule_provenance(model):
     return r
 
 
-def rule_prefix_widths(model):
-    r = RuleResult('C01.R4', 'each tag prefix the scanner compares has the '
-                   'width of its slice, and the name starts right after it')
-    fi = model.func('DT_HTML', 'dtml_re_class.search')
-    n = 0
+def prefix_tests(model, fi):
+    """(literal, node, width_ok) for every test of a tag prefix in the
+    scanner: `text[a:a+k] == LIT` or `text.startswith(LIT, a)`."""
+    out = []
     for c in own_nodes(fi.node):
         if isinstance(c, ast.Compare) and len(c.ops) == 1 and \
                 isinstance(c.ops[0], ast.Eq) and \
@@ -323,36 +322,53 @@ def rule_prefix_widths(model):
             sl = c.left.slice
             if sl.lower is None or sl.upper is None:
                 continue
-            n += 1
             ok = lin_eq(sl.upper, ast.BinOp(
                 left=sl.lower, op=ast.Add(),
                 right=ast.Constant(value=len(lit))))
-            r.instance(fi.where, c, f'width {len(lit)}' if ok
-                       else 'WIDTH MISMATCH')
-            if not ok:
-                r.finding(fi.where, c, f'the slice compared with {lit!r} is '
-                          f'not {len(lit)} characters wide: the prefix is '
-                          'never (or wrongly) recognised', node=c, ctx=fi)
-            # n = s + k in the branch taken
-            par = c._dt_parent
-            while par is not None and not isinstance(par, ast.If):
-                par = getattr(par, '_dt_parent', None)
-            if isinstance(par, ast.If) and len(lit) > 1:
-                for st in par.body[:2]:
-                    for a in ast.walk(st):
-                        if isinstance(a, ast.Assign) and \
-                                isinstance(a.value, ast.BinOp) and \
-                                norm(a.value.left) == norm(sl.lower) and \
-                                isinstance(a.value.right, ast.Constant):
-                            k = a.value.right.value
-                            extra = 1 if lit == '&dtml' else 0
-                            r.instance(fi.where, a, f'name offset {k}')
-                            if k != len(lit) + extra:
-                                r.finding(fi.where, a, 'the tag name is '
-                                          f'read from offset {k}, the '
-                                          f'prefix {lit!r} is '
-                                          f'{len(lit) + extra} characters '
-                                          'long', node=a, ctx=fi)
+            out.append((lit, c, ok, sl.lower))
+        elif isinstance(c, ast.Call) and isinstance(c.func, ast.Attribute) \
+                and c.func.attr == 'startswith' and len(c.args) == 2 and \
+                isinstance(c.args[0], ast.Constant) and \
+                isinstance(c.args[0].value, str):
+            out.append((c.args[0].value, c, True, c.args[1]))
+    return out
+
+
+def rule_prefix_widths(model):
+    r = RuleResult('C01.R4', 'each tag prefix the scanner compares has the '
+                   'width of its slice, and the name starts right after it')
+    fi = model.func('DT_HTML', 'dtml_re_class.search')
+    n = 0
+    for lit, c, ok, base in prefix_tests(model, fi):
+        if len(lit) < 2:
+            continue
+        n += 1
+        r.instance(fi.where, c, f'width {len(lit)}' if ok
+                   else 'WIDTH MISMATCH')
+        if not ok:
+            r.finding(fi.where, c, f'the slice compared with {lit!r} is '
+                      f'not {len(lit)} characters wide: the prefix is '
+                      'never (or wrongly) recognised', node=c, ctx=fi)
+        # n = s + k in the branch taken
+        par = c._dt_parent
+        while par is not None and not isinstance(par, ast.If):
+            par = getattr(par, '_dt_parent', None)
+        if isinstance(par, ast.If):
+            for st in par.body[:2]:
+                for a in ast.walk(st):
+                    if isinstance(a, ast.Assign) and \
+                            isinstance(a.value, ast.BinOp) and \
+                            norm(a.value.left) == norm(base) and \
+                            isinstance(a.value.right, ast.Constant):
+                        k = a.value.right.value
+                        extra = 1 if lit == '&dtml' else 0
+                        r.instance(fi.where, a, f'name offset {k}')
+                        if k != len(lit) + extra:
+                            r.finding(fi.where, a, 'the tag name is '
+                                      f'read from offset {k}, the '
+                                      f'prefix {lit!r} is '
+                                      f'{len(lit) + extra} characters '
+                                      'long', node=a, ctx=fi)
     if n < 4:
         raise AnalysisError(f'C01.R4: only {n} prefix comparisons found')
     r.floor = 4
